@@ -81,10 +81,12 @@ pub enum Layout { Classic, XrefStream, Incremental }
 
 /// Write the object table. `XrefStream` puts every non-stream object except the catalog's page tree root into an object stream.
 pub fn write(objs: &[(u32, Obj)], layout: Layout, prefix: &[u8]) -> Vec<u8> {
+    write_with_info(objs, layout, prefix, dict(vec![("Title", st("rich")), ("CreationDate", st("D:20200102030405+01'00'"))]))
+}
+pub fn write_with_info(objs: &[(u32, Obj)], layout: Layout, prefix: &[u8], info: Obj) -> Vec<u8> {
     let max = objs.iter().map(|(n, _)| *n).max().unwrap_or(1);
     let mut w = W::new(prefix, "1.7");
     w.free(0, 0, 65535);
-    let info = dict(vec![("Title", st("rich")), ("CreationDate", st("D:20200102030405+01'00'"))]);
     match layout {
         Layout::Classic | Layout::Incremental => {
             let half = objs.len() / 2;
